@@ -17,7 +17,7 @@ RULE = (
     "kernels' keys; (b) engine level: real sampling with 1-3 slow epochs, a co-existing kernel on other keys, "
     "the engine supplying the history (also two gradient-based kernels with user identifiers in non-alphabetical order, "
     "mixed-case key names, histories with fewer draws than coordinates); tuned matrix read from the stored kernel states. Flat coordinates are "
-    "identified through ravel_pytree(kernel.position(state)) with marker values. Also: schedules ending with a slow epoch and extended by append_epoch afterwards. non-trivial = listing order "
+    "identified through ravel_pytree(kernel.position(state)) with marker values. Also: schedules ending with a slow epoch and extended by append_epoch afterwards. Round 5: warm-up thinning > 1; coordinates with variance below float32 eps or exactly 0. non-trivial = listing order "
     "that is not the sorted order and two coordinates with variance ratio > 10; distinct by (keys, order, mode)"
 )
 REQUIRED = ["entry_i_belongs_to_coordinate_i", "documented_regulariser", "independent_of_key_order",
